@@ -77,7 +77,7 @@ Proof.
 Qed.
 Lemma prov_on_message_starts p m : SOK (fun _ => False) (prov_on_message p m).
 Proof.
-  unfold prov_on_message. destruct (negb (pv_confirmed p) || m_response m); [apply SOK_nil|].
+  rewrite prov_on_message_eq. unfold prov_on_message_old. destruct (negb (pv_confirmed p) || m_response m); [apply SOK_nil|].
   destruct (fold_left _ (m_queries m) (false, false, false, false)) as [[[sb sp] ss] st].
   destruct (fold_left _ (m_records m) (sp, ss, st)) as [[sp' ss'] st'].
   destruct (sb || sp' || (sp' || ss') || (sp' || st')); [|apply SOK_nil]. intros tid (ms & [H|[]]). discriminate.
@@ -117,7 +117,7 @@ Proof.
                               | Some pb => let '(pb', e) := prober_handle now pb (EvMsg m) in (Some pb', e)
                               | None => (None, []) end))).
     { destruct (cp_prober c) as [pb|]; [|apply SOK_nil]. cbn [prober_handle].
-      destruct (pb_confirmed pb || negb (m_response m)); [apply SOK_nil|].
+      unfold prober_ignore_message in *. destruct (pb_confirmed pb || negb (m_response m)); [apply SOK_nil|].
       pose proof (on_records_starts (m_records m) pb) as S. destruct (on_records (m_records m) pb) as [pb' e]. exact S. }
     destruct (match cp_prober c with Some pb => _ | None => (None, []) end) as [pb e3]. cbn [fst snd] in *.
     apply SOK_app; [eapply SOK_weaken; [|exact H1]; cbn; auto|]. apply SOK_app; [|eapply SOK_weaken; [|exact H3]; cbn; auto].
@@ -133,7 +133,7 @@ Proof.
       * unfold on_rebroadcast, assert_hostname. cbn [fst snd]. apply with_slot_starts; [left; reflexivity|].
         intros t (ms & [H|[H|[]]]); [discriminate|]. injection H as <- _. right. left. reflexivity.
   - destruct a as [| |s|]; try apply SOK_nil.
-    + destruct (pv_exists (cp_prov c)); [|apply SOK_nil]. unfold prov_update.
+    + destruct (pv_exists (cp_prov c)); [|apply SOK_nil]. rewrite prov_update_eq. unfold prov_update_old.
       set (p := set_prov (cp_prov c) true (pv_confirmed (cp_prov c))).
       match goal with |- context [if negb (match bs_data (r_target (pv_srvP ?q)) with [] => true | _ :: _ => false end) then _ else _] => set (p1 := q) end.
       destruct (negb (match bs_data (r_target (pv_srvP p1)) with [] => true | _ :: _ => false end)); [|apply SOK_nil].
@@ -202,7 +202,7 @@ Proof.
     + destruct (cp_prober c); [|reflexivity]. destruct (on_name_confirmed _ _). reflexivity.
     + destruct (host_handle now (cp_host c) (EvTimer tid)) as [h1 e1]. cbn [fst snd]. rewrite with_slot_host. reflexivity.
   - destruct a as [| |s|]; try reflexivity.
-    + destruct (pv_exists (cp_prov c)); [|reflexivity]. unfold prov_update.
+    + destruct (pv_exists (cp_prov c)); [|reflexivity]. rewrite prov_update_eq. unfold prov_update_old.
       match goal with |- context [if negb ?x then _ else _] => destruct (negb x) end; [|reflexivity].
       match goal with |- context [if ?x || ?y then _ else _] => destruct (x || y) end.
       * match goal with |- context [confirm ?p1 ?pb] => destruct (confirm p1 pb) end. reflexivity.
@@ -280,7 +280,7 @@ Lemma prov_update_target c s :
   pv_exists (cp_prov c') = pv_exists (cp_prov c) /\
   r_target (pv_srvP (cp_prov c')) = if h_reg (cp_host c) then Some (h_name (cp_host c)) else r_target (pv_srvP (cp_prov c)).
 Proof.
-  unfold prov_update.
+  rewrite prov_update_eq. unfold prov_update_old.
   set (p := set_prov (cp_prov c) true (pv_confirmed (cp_prov c))).
   match goal with |- context [if negb (match bs_data (r_target (pv_srvP ?q)) with [] => true | _ :: _ => false end) then _ else _] => set (p1 := q) end.
   assert (E : pv_exists p1 = pv_exists (cp_prov c) /\
